@@ -167,6 +167,21 @@ def check_packets(chk: Check, pkts: dict, inc: bool, now, rep) -> None:
                     return
 
 
+def addressee_only(A1: dict, X: dict) -> str:
+    """Key suffix of the recorded finding: the only difference is that replies are lost which A held for their *addressee* alone - a
+    device of which the snapshot holds no packet of its own (A knew it by its requests, which are never saved): a fresh gateway has no
+    such device.  (The source keeps a newer copy of the same reply, sent to someone else.)"""
+    if set(X) - set(A1) or any(A1[k] != X[k] for k in set(A1) & set(X)):
+        return ""
+    fr = {k: (v[4:] if v[3:4] == " " else v) for k, v in A1.items()}
+    srcs = {f[7:16] for f in fr.values() if f[:2] in (" I", "RP")}
+    lost = set(A1) - set(X)
+    if lost and all(fr[k][:2] == "RP" and fr[k][17:19] not in ("18", "--", "63") and fr[k][17:26] not in srcs
+                    and any(k2 not in lost and fr[k2][:16] == fr[k][:16] and fr[k2][37:41] == fr[k][37:41] and k2 > k for k2 in fr) for k in lost):
+        return ".reply-held-by-an-addressee-known-by-its-requests-only"
+    return ""
+
+
 def only_expired_lost(A1: dict, X: dict, inc: bool, now) -> bool:
     """True when X is A1 minus some packets that are all expired at `now` (and include_expired was asked for)."""
     from ramses_tx.message import Message
@@ -214,6 +229,8 @@ async def episode(loop, history, gaps, eavesdrop, checkpoints, slog: StoreLog) -
                 evs.append((us(msg.dtm), msg.verb.strip(), str(msg.code), msg._pkt._len, ex, slots))
             schemaA, pktsA = A.get_state(include_expired=inc)
             case = {"at": i, "inc": inc, "n": len(pktsA)}
+            case["dev_held"] = sorted({m.dtm.isoformat(timespec="microseconds") for d_ in A.devices for vs in getattr(d_, "_msgz", {}).values()
+                                       for cs in vs.values() for m in cs.values()})
             out["model"].append((inc, evs, list(pktsA)))
             case["pktsA"] = pktsA
             case["now"] = now
@@ -322,6 +339,11 @@ def run(chk: Check) -> None:
             corpus.append(([f" I --- 01:145038 --:------ 01:145038 {code} 003 01{a}", " I --- 01:145038 --:------ 01:145038 1F09 003 FF0532",
                             f" I --- 01:145038 --:------ 01:145038 {code} 009 00{a}01{a}02{a}", f" I --- 01:145038 --:------ 01:145038 {code} 003 01{b}",
                             " I --- 01:145038 --:------ 01:145038 000A 006 011001F40DAC"], [0.5, 30.0, 0.1, 2.0, 20.0]))
+        # the controller announces one zone's configuration (an edit), and half a minute later the whole array: both are held,
+        # both are in the snapshot, and a fresh gateway - of this same process - holds both after the restore
+        corpus.append(([" I --- 01:145038 --:------ 01:145038 000A 006 011001F40DAC", " I --- 01:145038 --:------ 01:145038 1F09 003 FF0532",
+                        " I --- 01:145038 --:------ 01:145038 000A 018 001001F40DAC011001F40BB8021001F40DAC", " I --- 01:145038 --:------ 01:145038 2309 003 0107D0"],
+                       [0.5, 25.0, 5.0, 20.0]))
         # an OpenTherm bridge answers with its configuration (good for hours), then its status and a temperature (good for minutes);
         # 25 minutes on the short-lived replies are gone from a default snapshot, the configuration is not
         def ot(i: int) -> str:
@@ -416,7 +438,8 @@ def run(chk: Check) -> None:
                     lost = sorted(set(A1) - set(B1))[:3]
                     extra = sorted(set(B1) - set(A1))[:3]
                     changed = [(k, A1[k], B1[k]) for k in sorted(set(A1) & set(B1)) if A1[k] != B1[k]][:2]
-                    chk.violation("c16.expired_purged_on_replay" if only_expired_lost(A1, B1, case["inc"], case["now"]) else "c16.fixpoint.packets", f"snapshot -> fresh gateway -> snapshot differs: lost {[(k, A1[k]) for k in lost]} extra {[(k, B1[k]) for k in extra]} changed {changed}", rep)
+                    chk.violation("c16.expired_purged_on_replay" if only_expired_lost(A1, B1, case["inc"], case["now"]) else
+                                  "c16.fixpoint.packets" + addressee_only(A1, B1), f"snapshot -> fresh gateway -> snapshot differs: lost {[(k, A1[k]) for k in lost]} extra {[(k, B1[k]) for k in extra]} changed {changed}", rep)
                 elif not eav and not case["schema_equal"]:
                     sa, sb = case["schemaA"], case["schemaB"]
                     core = lambda x: {k: v for k, v in x.items() if not k.startswith("orphans_")}  # noqa: E731
@@ -465,11 +488,15 @@ def run(chk: Check) -> None:
                       chk.violation("c16.fixpoint.schema.orphan_presence" if only_orphans else "c16.fixpoint.schema.empty_dhw" if empty_dhw else "c16.fixpoint.schema", f"schema differs after restore into a fresh gateway: {json.dumps(case['schemaA'])[:300]} vs {json.dumps(case['schemaB'])[:300]}", rep)
                 if "errorC" in case:
                     chk.violation("c16.restore_fresh_no_schema.raises:" + case["errorC"].split("(")[0], f"building a gateway from A's packets alone raised {case['errorC']}", rep)
-                elif case.get("pktsC") is not None and case["pktsC"] != A1:
+                elif case.get("pktsC") is not None and case["pktsC"] != A1 and (
+                        set(case["pktsC"]) - set(A1) or (set(A1) - set(case["pktsC"])) & set(case.get("dev_held", A1))):
+                    # (without the schema a fresh gateway has only the systems / zones the packets themselves give rise to: a packet
+                    #  that A holds in a zone or DHW object only - e.g. an older array, for the zones a newer array no longer names -
+                    #  has no holder there.  What devices hold is what the packets alone must reproduce.)
                     C1 = case["pktsC"]
-                    lost = sorted(set(A1) - set(C1))[:3]
+                    lost = sorted((set(A1) - set(C1)) & set(case.get("dev_held", A1)))[:3]
                     extra = sorted(set(C1) - set(A1))[:3]
-                    chk.violation("c16.expired_purged_on_replay" if only_expired_lost(A1, C1, case["inc"], case["now"]) else "c16.fixpoint.packets_no_schema",
+                    chk.violation("c16.expired_purged_on_replay" if only_expired_lost(A1, C1, case["inc"], case["now"]) else "c16.fixpoint.packets_no_schema" + addressee_only(A1, C1),
                                   f"snapshot -> fresh gateway (packets only, no schema) -> snapshot differs: lost {[(k, A1[k]) for k in lost]} extra {[(k, C1[k]) for k in extra]}", rep)
                 if case.get("pktsB2") is not None and case["pktsB2"] != B1:
                     chk.violation("c16.expired_purged_on_replay" if only_expired_lost(B1, case["pktsB2"], case["inc"], case["now"]) else "c16.restore_twice", "restoring the same snapshot a second time changed the snapshot", rep)
